@@ -2,14 +2,14 @@
 # usage: tools/seeded_wt.sh <seeded id> <seed> <check ids...>  -- applies seeded/<id>/patch.diff to a scratch worktree of /repo HEAD
 # (never to /repo itself), runs the quick tier of each check against it with VERIF_REPO, removes the worktree
 cd "$(dirname "$0")/.."
-ID=$1; SEED=$2; shift 2
+ID=$1; SEED=$2; shift 2; VROOT=$PWD
 WT=/tmp/wt/run_$ID
 git -C /repo worktree remove --force $WT 2>/dev/null
 git -C /repo worktree add -q --detach $WT HEAD || exit 2
-( cd $WT && git apply /verif/seeded/$ID/patch.diff ) || { echo "seeded=$ID patch does not apply"; git -C /repo worktree remove --force $WT; exit 2; }
+( cd $WT && git apply $VROOT/seeded/$ID/patch.diff ) || { echo "seeded=$ID patch does not apply"; git -C /repo worktree remove --force $WT; exit 2; }
 mkdir -p .scratch/logs .scratch/evidence_seeded
 for c in "$@"; do
-  VERIF_REPO=$WT VERIF_EVIDENCE_DIR=/verif/.scratch/evidence_seeded VERIF_SEED=$SEED ./vcheck $c --tier quick > .scratch/logs/mut.$ID.$c.$SEED.log 2>&1; rc=$?
+  VERIF_REPO=$WT VERIF_EVIDENCE_DIR=$PWD/.scratch/evidence_seeded VERIF_SEED=$SEED ./vcheck $c --tier quick > .scratch/logs/mut.$ID.$c.$SEED.log 2>&1; rc=$?
   echo "seeded=$ID check=$c seed=$SEED rc=$rc violations=$(grep -c '^VIOLATION' .scratch/logs/mut.$ID.$c.$SEED.log) known=$(grep -c '^KNOWN' .scratch/logs/mut.$ID.$c.$SEED.log) | $(grep 'ran=' .scratch/logs/mut.$ID.$c.$SEED.log | cut -c1-110)"
 done
 git -C /repo worktree remove --force $WT
